@@ -213,6 +213,7 @@ func (s *StorageClient) Append(key string, value []byte) (bool, error) {
 
 func (s *StorageClient) Incr(key string, value int) (int, error) {
 	if !store.IsValidKeyString(key) {
+		cmem.DBRL.SetData.SubCount(1) // counted by the parser, never reaches the store
 		return 0, nil
 	}
 	ki := s.prepare(key, false)
